@@ -399,6 +399,9 @@ func (w *world) mforced(kind string, n int) string {
 	if n < 10 || n > 100000 {
 		return "bad-op"
 	}
+	if kind == "aba" {
+		return w.aba(n)
+	}
 	om := orderedmap.New[int, int]()
 	for i := 0; i < n; i++ {
 		om.Set(i, i)
@@ -480,6 +483,10 @@ func (w *world) mforced(kind string, n int) string {
 				w.r.Fail("weak-iteration", fmt.Sprintf("%s visited %d of %d entries", kind, visits, n), map[string]string{"api": "OrderedMap.ForEach", "oracle": "weak-iteration"})
 			}
 		})
+	case "aba":
+		// several goroutines delete and re-set the same two keys of a small map: a Delete that acts on an element it looked
+		// up before taking the write lock would unlink a stale element; afterwards the map must be consistent
+		return w.aba(n)
 	default:
 		return "bad-op"
 	}
@@ -507,6 +514,190 @@ func (w *world) mforced(kind string, n int) string {
 	return "done"
 }
 
+// setCall performs one call of a method that accepts a ReadableSet (or mutations built from one) on `recv` with `src`.
+func setCall(method string, recv, src ds.Set[E]) {
+	switch method {
+	case "addall":
+		recv.AddAll(src)
+	case "delall":
+		recv.DeleteAll(src)
+	case "replace":
+		recv.Replace(src)
+	case "applyadd":
+		recv.Apply(ds.NewSetMutations[E]().WithAddedElements(src))
+	case "applydel":
+		recv.Apply(ds.NewSetMutations[E]().WithDeletedElements(src))
+	case "hasall":
+		recv.HasAll(src)
+	case "equals":
+		recv.Equals(src)
+	case "intersect":
+		recv.Intersect(src)
+	case "computeself":
+		recv.Compute(func(rs ds.ReadableSet[E]) ds.SetMutations[E] { return ds.NewSetMutations[E]().WithAddedElements(src) })
+	}
+}
+
+var setCallAPI = map[string]string{"addall": "Set.AddAll", "delall": "Set.DeleteAll", "replace": "Set.Replace", "applyadd": "Set.Apply",
+	"applydel": "Set.Apply", "hasall": "Set.HasAll", "equals": "Set.Equals", "intersect": "Set.Intersect", "computeself": "Set.Compute"}
+
+// refill puts the initial elements back (DeleteAll(s), Replace(s), Apply(-s) empty the set) through a method that
+// takes no set argument.
+func refill(s ds.Set[E]) {
+	for e := E(0); e < 4; e++ {
+		s.Add(e)
+	}
+}
+
+// runParties starts the given loops, waits for the `main` ones (the first nMain) and then stops the background ones.
+func (w *world) runParties(line, api, schedule string, nMain int, loops []func(stop *atomic.Bool)) string {
+	var stop atomic.Bool
+	done := make(chan int, len(loops))
+	for i, l := range loops {
+		go func() {
+			defer func() {
+				if e := recover(); e != nil {
+					w.r.Fail("panic", fmt.Sprintf("%s: %v", line, e), map[string]string{"api": api, "oracle": "panic", "schedule": schedule})
+				}
+				done <- i
+			}()
+			l(&stop)
+		}()
+	}
+	timeout := time.After(watchdog)
+	mains, all := 0, 0
+	for all < len(loops) {
+		select {
+		case i := <-done:
+			all++
+			if i < nMain {
+				mains++
+			}
+			if mains == nMain {
+				stop.Store(true)
+			}
+		case <-timeout:
+			stop.Store(true)
+			w.r.Fail("deadlock", fmt.Sprintf("%s: %d of %d goroutines returned within %v (%d of %d looping callers finished)", line, all, len(loops), watchdog, mains, nMain),
+				map[string]string{"api": api, "oracle": "deadlock", "schedule": schedule})
+			hangs++
+
+			return "hung"
+		}
+	}
+
+	return "done"
+}
+
+func noopWriter(s ds.Set[E], k int) func(stop *atomic.Bool) {
+	return func(stop *atomic.Bool) {
+		for i := 0; !stop.Load(); i++ {
+			if (i+k)%2 == 0 {
+				// adds an element that is there and deletes one that is not (while the set is full): applies nothing
+				s.Apply(ds.NewSetMutations[E](1).WithDeletedElements(ds.NewSet[E](5)))
+			} else {
+				s.Compute(func(ds.ReadableSet[E]) ds.SetMutations[E] { return ds.NewSetMutations[E]() })
+			}
+		}
+	}
+}
+
+// alias: `s.M(s)` looping against two goroutines doing no-op Apply/Compute on the same set.
+func (w *world) alias(method string, n int) string {
+	if setCallAPI[method] == "" || n < 1 || n > 1000000 {
+		return "bad-op"
+	}
+	s := ds.NewSet[E](0, 1, 2, 3)
+	caller := func(*atomic.Bool) {
+		for i := 0; i < n; i++ {
+			setCall(method, s, s)
+			if i%4 == 3 {
+				refill(s)
+			}
+		}
+	}
+
+	return w.runParties(fmt.Sprintf("alias %s %d", method, n), setCallAPI[method], "self-aliased-argument;apply-pending", 1,
+		[]func(*atomic.Bool){caller, noopWriter(s, 0), noopWriter(s, 1)})
+}
+
+// cross: `a.M(b)` and `b.M(a)` looping while an Apply/Compute loop runs on each of the two sets.
+func (w *world) cross(method string, n int) string {
+	if setCallAPI[method] == "" || n < 1 || n > 1000000 {
+		return "bad-op"
+	}
+	a, b := ds.NewSet[E](0, 1, 2, 3), ds.NewSet[E](2, 3, 4, 5)
+	caller := func(x, y ds.Set[E]) func(*atomic.Bool) {
+		return func(*atomic.Bool) {
+			for i := 0; i < n; i++ {
+				setCall(method, x, y)
+				if i%4 == 3 {
+					refill(x)
+				}
+			}
+		}
+	}
+
+	return w.runParties(fmt.Sprintf("cross %s %d", method, n), setCallAPI[method], "two-sets-cross-arguments;apply-pending-on-each", 2,
+		[]func(*atomic.Bool){caller(a, b), caller(b, a), noopWriter(a, 0), noopWriter(b, 1)})
+}
+
+var aliasMethods = []string{"addall", "delall", "replace", "applyadd", "applydel", "hasall", "equals", "intersect", "computeself"}
+var crossMethods = []string{"addall", "delall", "replace", "applyadd", "applydel", "hasall", "equals", "intersect"}
+
+// aba: `n` rounds of 4 goroutines x 40 Delete/Set calls on keys {0,1} of a 5-key ordered map, then a consistency check.
+func (w *world) aba(n int) string {
+	for round := 0; round < n; round++ {
+		om := orderedmap.New[int, int]()
+		for k := 0; k < 5; k++ {
+			om.Set(k, k)
+		}
+		var loops []func(*atomic.Bool)
+		for g := 0; g < 4; g++ {
+			loops = append(loops, func(*atomic.Bool) {
+				for i := 0; i < 40; i++ {
+					k := (i + g) % 2
+					if (i/2+g)%3 == 0 {
+						om.Set(k, i)
+					} else {
+						om.Delete(k)
+					}
+				}
+			})
+		}
+		if w.runParties(fmt.Sprintf("mforced aba %d", n), "OrderedMap.Delete", "delete-vs-delete+set-same-key", 4, loops) != "done" {
+			return "hung"
+		}
+		var fwd, rev []int
+		steps := 0
+		om.ForEach(func(k, _ int) bool { fwd = append(fwd, k); steps++; return steps < 100 })
+		steps = 0
+		om.ForEachReverse(func(k, _ int) bool { rev = append(rev, k); steps++; return steps < 100 })
+		ok := len(fwd) == len(rev) && om.Size() == len(fwd)
+		seen := map[int]bool{}
+		for i, k := range fwd {
+			if seen[k] || !om.Has(k) || (ok && rev[len(rev)-1-i] != k) {
+				ok = false
+			}
+			seen[k] = true
+		}
+		for k := 0; k < 5; k++ {
+			if om.Has(k) != seen[k] {
+				ok = false
+			}
+		}
+		if !ok {
+			w.r.Fail("omap-order", fmt.Sprintf("after concurrent Delete/Set of keys 0,1 (round %d): ForEach %v, ForEachReverse %v, Size %d, Has(0..4)=%v%v%v%v%v",
+				round, fwd, rev, om.Size(), om.Has(0), om.Has(1), om.Has(2), om.Has(3), om.Has(4)),
+				map[string]string{"api": "OrderedMap.Delete", "oracle": "quiescent-consistency", "schedule": "delete-vs-delete+set-same-key"})
+
+			return "done"
+		}
+	}
+
+	return "done"
+}
+
 // runConcurrent is the generated concurrent part of a run.
 func runConcurrent(r *hx.Run) {
 	forcedN, stressN := 5, 1500
@@ -522,7 +713,17 @@ func runConcurrent(r *hx.Run) {
 		}
 	}
 	for i := 0; i < forcedN; i++ {
-		ops = append(ops, fmt.Sprintf("mforced clone %d", 1000+200*i), fmt.Sprintf("mforced foreach %d", 1000+200*i), fmt.Sprintf("mforced foreachrev %d", 1000+200*i))
+		ops = append(ops, fmt.Sprintf("mforced aba %d", 300), fmt.Sprintf("mforced clone %d", 1000+200*i), fmt.Sprintf("mforced foreach %d", 1000+200*i), fmt.Sprintf("mforced foreachrev %d", 1000+200*i))
+	}
+	runCase(r, 0, ops)
+	ops = nil
+	for rep := 0; rep < 1+r.Scale/4 && hangs < 4; rep++ {
+		for _, m := range aliasMethods {
+			ops = append(ops, fmt.Sprintf("alias %s %d", m, 3000))
+		}
+		for _, m := range crossMethods {
+			ops = append(ops, fmt.Sprintf("cross %s %d", m, 2000))
+		}
 	}
 	runCase(r, 0, ops)
 	for i := 0; i < stressN && hangs < 4; i++ {
